@@ -100,6 +100,9 @@ func DrawConfig(seed uint64, profile string) Config {
 		cfg.ArmedCrashes = r.Chance(1, 2)
 	}
 	cfg.Partition = r.Chance(1, 4)
+	if r.Chance(1, 4) || ((profile == "wal" || profile == "crash") && r.Chance(1, 3)) {
+		cfg.BigTx, cfg.BlockPartSize, cfg.WTx = true, 65536, 8
+	}
 	if r.Chance(1, 2) {
 		cfg.DelayPct, cfg.DelayMax = []int{5, 15, 30}[r.Intn(3)], []int{60, 200, 500}[r.Intn(3)]
 	}
@@ -317,11 +320,18 @@ func (w *World) nextAction() (simrt.Action, bool) {
 				return simrt.Action{K: "byz", N: id, S: "propose-bad", A: h, B: r, C: int64(w.Rng.Intn(len(badBlockKinds)))}, true
 			}
 		}
+		if kind != "propose" && w.Rng.Chance(1, 8) {
+			return simrt.Action{K: "byz", N: id, S: kind, A: h, B: r, C: int64(w.Rng.Intn(4)), I: "misindexed"}, true
+		}
 		return simrt.Action{K: "byz", N: id, S: kind, A: h, B: r, C: int64(w.Rng.Intn(4))}, true
 	case iTx:
 		nd := live[w.Rng.Intn(len(live))]
 		w.txSeq++
 		s := fmt.Sprintf("tx-%d-%x", w.txSeq, w.Rng.Intn(1<<20))
+		if cfg.BigTx && w.Rng.Chance(1, 2) {
+			// several kilobytes: the block part that carries it is one WAL record longer than any buffer the log uses
+			s += "-" + strings.Repeat(fmt.Sprintf("%x", w.Rng.Intn(1<<30)), 400+w.Rng.Intn(1500))
+		}
 		if cfg.ValChanges && w.Rng.Chance(1, 3) {
 			// only honest powers move, and only upward, so Byzantine power stays < 1/3
 			var hs []int
